@@ -149,7 +149,7 @@ theorem dispatch_frame (ext : Ext) (loop : S) (P mvar R : String) (X : E) (shape
   unfold runLoop at h
   have hpk : (P == mvar) = false := by rw [BEq.comm]; exact hp
   rw [exec] at h
-  simp only [evalE, Env.get, List.lookup, hpk, beq_self_eq_true, iterOf, PV.lookup, PV.beq, bind, Except.bind] at h
+  simp only [evalE, Env.get, List.lookup, hpk, beq_self_eq_true, iterLazy_pkg, bind, Except.bind] at h
   cases hl : loopFor (exec ext (if shapeA then bodyA mvar R X else bodyB mvar R X)) (bind1 R) rs
       { env := (mvar, mt) :: (P, .dict [(.str "__iter__", .list rs)]) :: others, out := [] } with
   | error e => simp [hl, Except.map] at h
@@ -286,8 +286,8 @@ theorem Tie_delete_resource_loop (ext : Ext) (mt : PV) (rs : List PV) (others : 
   rw [hshape] at h
   unfold runLoop at h
   rw [exec] at h
-  simp only [evalE, Env.get, List.lookup, show ("package" == "matcher") = false by decide, beq_self_eq_true, iterOf, PV.lookup,
-    PV.beq, bind, Except.bind] at h
+  simp only [evalE, Env.get, List.lookup, show ("package" == "matcher") = false by decide, beq_self_eq_true, iterLazy_pkg,
+    bind, Except.bind] at h
   cases hl : loopFor (exec ext (bodyC "matcher" "r" drainCall)) (bind1 "r") rs
       { env := ("matcher", mt) :: ("package", .dict [(.str "__iter__", .list rs)]) :: others, out := [] } with
   | error e => simp [hl, Except.map] at h
